@@ -43,7 +43,7 @@ class C13(WigBedProp):
     view_tags = ("R",)
     rule = ("each violation class (bigWig: overlapping / out-of-order intervals, start > end, end beyond the chromosome, unknown "
             "chromosome, chromosomes out of order, malformed line, empty input; bigBed: out-of-order starts, start > end, start "
-            "beyond the chromosome, …) injected at the first / middle / last item of the first / middle / last chromosome of a valid "
+            "beyond the chromosome, …) injected at EVERY item position of the first / middle / last chromosome of a valid "
             "three-chromosome input × {bigWig, bigBed} × {iterator, file, parallel file source} × {single pass, two pass}; plus "
             "valid degenerate inputs (only zero-length items, one item, a chromosome listed but absent, odd manual zoom lists). "
             "Every call runs under catch_unwind and a 15 s watchdog. Non-trivial = an injected violation (all but the valid ones)")
@@ -56,12 +56,12 @@ class C13(WigBedProp):
             for bed in (False, True):
                 for cls in (BED_CLASSES if bed else WIG_CLASSES):
                     for ci in (0, 1, 2):
-                        for pi in ("first", "middle", "last"):
+                        for pi in (0, 1, 2, 3, 4):            # EVERY item position of the chromosome (3–5 items)
                             for src in ("iter", "file", "par"):
                                 for ps in (1, 2):
                                     if cls in ("malformed",) and src == "iter":
                                         continue
-                                    if cls == "empty" and (ci, pi) != (0, "first"):
+                                    if cls == "empty" and (ci, pi) != (0, 0):
                                         continue
                                     if tier != "thorough" and rng.chance(1, 2) and cls != "empty":
                                         continue
@@ -86,7 +86,10 @@ class C13(WigBedProp):
         names, sizes, data = base_input(r, bed)
         nm = names[ci]
         items = data[nm]
-        idx = {"first": 0, "middle": len(items) // 2, "last": len(items) - 1}[pi]
+        if pi >= len(items):
+            return None
+        idx = pi
+        pi = "first" if idx == 0 else "last" if idx == len(items) - 1 else f"inner{idx}"
         o = {"compress": r.choice([0, 1]), "ips": r.choice([1, 2, 1024]), "bs": r.choice([2, 256]),
              "zooms": r.choice(["auto", "none", "10"]), "pass": ps, "inmem": r.choice([0, 1]), "rt": "mt",
              "threads": r.choice([1, 2, 4]), "chan": r.choice([0, 1, 100]), "src": src, "sort": "all"}
